@@ -1,4 +1,5 @@
-import NbioVerif.Lemmas.ReadPathSteps
+import NbioVerif.Lemmas.ReadPathMeasure
+import NbioVerif.Lemmas.ReadPathDgram
 import NbioVerif.Model.Gate
 /-! C02 Inbound delivery integrity (model level, `Model/ReadPath.lean`).
 
@@ -59,6 +60,102 @@ example : let s := run { mode := .et, async := true, rbs := 4, cap := 3, udp := 
               [.push [1, 2, 3], .report true false, .tstep, .tstep, .push [9]]
     s.ps = .idle ∧ s.task = .none ∧ s.closed = false ∧ s.k.qlen = 1 ∧ s.k.edge = true ∧ s.dlv = [(0, [1, 2, 3])] := by
   decide
+
+/-- C02 (i) streams: at every point of every run, what the callbacks received, followed by what a parked read
+    task has taken from the kernel but not yet handed over, followed by the kernel queue, is exactly what the peer
+    sent — nothing lost, duplicated, reordered or invented. -/
+theorem c02_delivery_stream (g : Cfg) (as : List Act) (hu : g.udp = false) :
+    let s := run g init as
+    dlvBytes s ++ inflight s ++ s.k.rq = s.sentS :=
+  dels_run g as init (core_init g) (dels_init g) hu
+
+/-- corollaries in the property's words: delivered is a prefix of sent; when no task is alive, delivered is
+    exactly what has been dequeued -/
+theorem c02_delivered_prefix (g : Cfg) (as : List Act) (hu : g.udp = false) :
+    let s := run g init as
+    dlvBytes s <+: s.sentS ∧ (s.task = .none → dlvBytes s ++ s.k.rq = s.sentS) := by
+  intro s
+  have h : dlvBytes s ++ inflight s ++ s.k.rq = s.sentS := c02_delivery_stream g as hu
+  refine ⟨⟨inflight s ++ s.k.rq, by rw [← List.append_assoc]; exact h⟩, fun ht => ?_⟩
+  have : inflight s = [] := by simp only [inflight, ht]
+  rw [this, List.append_nil] at h
+  exact h
+
+example : let s := run { mode := .lt, async := false, rbs := 2, cap := 1, udp := false } init
+              [.push [1, 2, 3], .report true false, .pstep, .pstep]
+    dlvBytes s = [1, 2] ∧ s.k.rq = [3] ∧ s.sentS = [1, 2, 3] ∧ s.ps = .idle := by decide
+
+/-- C02 (iv) datagrams: attributed datagrams, then the one a parked task holds, then the kernel queue (each
+    truncated to the read buffer, which is what recvfrom does) are the datagrams sent, in order; and the callbacks
+    are exactly the non-empty attributed datagrams, one callback per datagram, on the datagram's session. -/
+theorem c02_delivery_udp (g : Cfg) (as : List Act) (hu : g.udp = true) :
+    let s := run g init as
+    deqPairs s ++ inflightD s ++ s.k.dq.map (trunc g) = s.sentD.map (trunc g) ∧ s.dlv = s.deqD.filterMap cb := by
+  have h := deld_run g as init (core_init g) (deld_init g)
+  exact ⟨h.order hu, h.calls hu⟩
+
+/-- C02 (iv) demultiplexing: any two datagrams ever attributed land on the same session iff they come from the
+    same remote address (within one address family, ports and zone ids in range). -/
+theorem c02_udp_demux (g : Cfg) (as : List Act) (e1 e2 : Addr × Nat × List UInt8) :
+    let s := run g init as
+    e1 ∈ s.deqD → e2 ∈ s.deqD → e1.1.wf → e2.1.wf → e1.1.sameFamily e2.1 → (e1.2.1 = e2.2.1 ↔ e1.1 = e2.1) := by
+  intro s h1 h2 w1 w2 hf
+  have h := sessOk_run g as init sessOk_init
+  rw [sess_demux s h e1 e2 h1 h2]
+  exact udpKey_inj e1.1 e2.1 w1 w2 hf
+
+example : let s := run { mode := .et, async := false, rbs := 8, cap := 3, udp := true } init
+              [.dgram (.v4 127 0 0 1 4000) [1], .dgram (.v4 127 0 0 1 4001) [2], .dgram (.v4 127 0 0 1 4000) [3],
+               .report true false, .pstep, .pstep, .pstep, .pstep]
+    s.dlv = [(1, [1]), (2, [2]), (1, [3])] ∧ s.opens = [1, 2] ∧ s.k.dq = [] := by decide
+
+/-- all steps of the list are enabled, in turn -/
+def runAll (g : Cfg) (s : St) : List Act → Option St
+  | [] => some s
+  | a :: as => match step g s a with
+    | some s' => runAll g s' as
+    | none => none
+
+/-- C02 (v) no spin: without new input or reports, poller and read task can only take finitely many steps: every
+    sequence of enabled internal steps is at most `mu` long (input still queued + 3·readEvents + loop positions).
+    Needs a non-empty read buffer — which is what the default executor did not have (defect: zero-length buffers). -/
+theorem c02_no_spin (g : Cfg) (hr : g.rbs > 0) (as : List Act) (hi : ∀ a ∈ as, a.internal = true) :
+    ∀ s s', runAll g s as = some s' → as.length + mu g s' ≤ mu g s := by
+  induction as with
+  | nil => intro s s' h; simp only [runAll, Option.some.injEq] at h; subst h; simp
+  | cons a as ih =>
+    intro s s' h
+    simp only [runAll] at h
+    split at h
+    · next s1 hs =>
+      have h1 := mu_internal g s s1 a hr (hi a (by simp)) hs
+      have h2 := ih (fun b hb => hi b (by simp [hb])) s1 s' h
+      simp only [List.length_cons]; omega
+    · cases h
+
+/-- with a zero-length buffer the loop does spin: the model shows the defect too (read calls grow, nothing moves) -/
+example : let g : Cfg := { mode := .et, async := true, rbs := 0, cap := 3, udp := false }
+    let s := run g init [.push [1], .report true false, .tstep, .tstep, .tstep, .tstep, .tstep]
+    s.reads = 5 ∧ s.k.rq = [1] ∧ s.dlv = [] ∧ s.task ≠ .none := by decide
+
+/-- C02 (i), closing clause — FULL STATEMENT (does not hold, see the counterexample): a close triggered by a peer
+    half-close (EPOLLRDHUP without a socket error) never leaves bytes of that peer unread:
+      `∀ g as, (run g init as).lost = 0`.
+    It holds in the synchronous configurations: -/
+theorem c02_close_drained_partial (g : Cfg) (as : List Act) (hs : g.isAsync = false) : (run g init as).lost = 0 :=
+  (drain_run g as init (core_init g) (drain_init g)).lost0 hs
+
+/-- … and fails with AsyncReadInPoller: the poller hands the event to the read task and then closes at once;
+    the task finds the conn closed (known finding C02-async-halfclose). -/
+theorem c02_close_drained_counterexample :
+    let g : Cfg := { mode := .et, async := true, rbs := 8, cap := 3, udp := false }
+    let s := run g init [.push [1, 2, 3], .eof, .report true false, .pstep, .tstep]
+    s.lost = 3 ∧ s.closed = true ∧ s.dlv = [] ∧ s.task = .none := by decide
+
+/-- non-vacuity of the partial theorem: LT with a burst larger than the per-loop limit, then FIN: drained -/
+example : let g : Cfg := { mode := .lt, async := false, rbs := 1, cap := 1, udp := false }
+    let s := run g init [.push [1, 2, 3], .eof, .report true false, .pstep, .pstep, .pstep, .pstep, .pstep]
+    s.closed = true ∧ s.lost = 0 ∧ dlvBytes s = [1, 2, 3] := by decide
 
 end ReadPath
 
